@@ -199,6 +199,12 @@ def tlc_trace(module, cfg, trace_file, extra_env=None, timeout=900, xmx="3g"):
         env.update(extra_env)
     r = tlc(module, cfg, workers=1, env=env, timeout=timeout, xmx=xmx, xss="1g", deque=True)
     fail = [p for t, p in r.printed if t == "FAIL"]
+    if r.violation == "NotDone":
+        # the trace spec consumed every event: TLC stops at once (NotDone is the acceptance marker, not a property)
+        r.violation = None
+        return True, None, r
+    if r.violation and not fail:
+        raise ToolError("trace validation %s %s: invariant %s violated\n%s" % (module, trace_file, r.violation, r.cex[:1500]))
     if r.error and not fail:
         raise ToolError("trace validation %s %s: %s" % (module, trace_file, r.error))
     if fail:
